@@ -20,7 +20,7 @@ C14_VOS = ["Base/Conv.vo", "DD/Table.vo", "DD/TableExtra.vo", "DD/Sem.vo", "DD/B
            "Mgr/Conc.vo", "Mgr/OomOwn.vo", "Mgr/OomOwnTie.vo",
            "Num/I64.vo", "DD/ApplyBcdd.vo", "DD/FamSpec.vo", "DD/ZbddOps.vo", "DD/ZbddBool.vo", "DD/ApplyMtbdd.vo",
            "Mgr/OomGen.vo", "Mgr/OomBcdd.vo", "Mgr/OomZbdd.vo", "Mgr/OomMtbdd.vo"]
-PROPS = ["C14", "C01", "C02", "C03", "C04", "C05", "C09", "C10", "C13"]
+PROPS = ["C14", "C01", "C02", "C03", "C04", "C05", "C09", "C10", "C11", "C13"]
 BIG = 1 << 14
 
 
@@ -275,6 +275,44 @@ def script_mtbdd(rng, nv, length):
     return ops
 
 
+def script_tdd(rng, nv, length):
+    """TDD (package TDDx): variables, constants, not, the 8 three-valued connectives, ite, cofactors"""
+    ops = [f"VARS {nv}"]
+    live = []
+
+    def fresh():
+        d = len(live)
+        live.append(d)
+        return d
+
+    def pick():
+        return rng.choice(live)
+
+    for v in rng.sample(range(nv), min(nv, 3)):
+        ops.append(f"T3VAR h{fresh()} {v}")
+    ops.append(f"T3CONST h{fresh()} {rng.choice('fut')}")
+    for _ in range(length):
+        q = rng.random()
+        if q < 0.6:
+            a, b = pick(), pick()
+            ops.append(f"{rng.choice(ddgen.T3_BIN_OPS)} h{fresh()} h{a} h{b}")
+        elif q < 0.8:
+            a, b, c = pick(), pick(), pick()
+            ops.append(f"T3ITE h{fresh()} h{a} h{b} h{c}")
+        elif q < 0.9:
+            a = pick()
+            ops.append(f"T3NOT h{fresh()} h{a}")
+        elif q < 0.95:
+            a = pick()
+            ops.append(f"T3COF h{fresh()} h{fresh()} h{fresh()} h{a}")
+        else:
+            a = pick()
+            ops.append(f"CLONE h{fresh()} h{a}")
+        if rng.random() < 0.06 and len(live) > 4:
+            ops.append("GC")
+    return ops
+
+
 def gen_scripts(ctx):
     """(sid, kind, threads, nvars, ops)"""
     rng = random.Random(ctx.seed * 104729 + 14)
@@ -301,6 +339,9 @@ def gen_scripts(ctx):
                 res.append((f"s{sid}", "zbdd", threads, 4, script_zbdd(rng, 4, length))); sid += 1
         for threads in (1, 2, 8):
             res.append((f"s{sid}", "mtbdd", threads, 3, script_mtbdd(rng, 3, 6))); sid += 1
+        # TDD (package TDDx): the rule set is sequential; the worker count only sizes the manager's pool
+        for threads, nv, length in ((1, 4, 5), (1, 3, 8), (8, 4, 6)):
+            res.append((f"s{sid}", "tdd", threads, nv, script_tdd(rng, nv, length))); sid += 1
     return res
 
 
@@ -341,14 +382,17 @@ def sweep_cases(scripts, need, max_span=None):
         tail = ["DROPALL", "GC"]
         if kind in ("bdd", "bcdd") and nv >= 4:
             tail += ["FILL", "GC"]        # capacity probe: every slot is available again
+        tdd_probe = (kind == "tdd")
         lo = nv if kind == "zbdd" else 0    # ZBDD add_vars aborts by documented design when the chain does not fit
         for c in range(lo, n_inner + 3):
-            full = ops + tail + ops[1:] + ["DROPALL", "GC"]
+            # (tdd: the ternary probe T3FILL sized for this capacity: single nodes until out-of-memory)
+            ctail = tail + ([ddgen.t3fill_op(c, nv), "GC"] if tdd_probe else [])
+            full = ops + ctail + ops[1:] + ["DROPALL", "GC"]
             extra = f"need={n_inner}"
             if n_inner <= c < 100:
                 # (from 100 slots on the manager runs its background collector, whose timing decides
                 # whether a dead node is found again or re-created: the exact need is then not determined)
-                extra += f" retry_at={nops + len(tail)}"
+                extra += f" retry_at={nops + len(ctail)}"
             if kind == "mtbdd":
                 extra += f" tcap={1 << 10}"
             cases.append((ddgen.header(f"{sid}c{c}", kind, cap=c, cache=64, threads=threads, snap_each=True, extra=extra), full))
